@@ -195,6 +195,16 @@ func (p *propC01) genSweep(x int) *Scenario {
 		{Data: &DataOp{Local: 1, Bytes: hexs(data)}},
 	}
 	h := uint64(x0/10)*2654435761 ^ uint64(size)*40503 ^ uint64(tb)*97 ^ uint64(pat)
+	if h%8 == 5 {
+		// one case in eight: first a definition with the longest possible developer
+		// field list and not a single zero byte, so that whatever scratch space
+		// definitions are read into is non-zero when the swept field is parsed
+		poison := &DefOp{Local: 2, Arch: "le", Global: 0xFF00, Fields: [][3]int{{1, 1, 2}}}
+		for k := 0; k < 255; k++ {
+			poison.Dev = append(poison.Dev, [3]int{1 + k%255, 1 + k%3, 1 + k%7})
+		}
+		ops = append(ops[:2:2], append([]Op{{Def: poison}}, ops[2:]...)...)
+	}
 	plan := planFull()
 	switch h % 16 {
 	case 0:
